@@ -71,10 +71,10 @@ def _callsig(col, rule="C10.R1"):
         want = {(S.sattr("targets"), ps.get("target"), None), (S.sattr("vary"), ps.get("vary"), "tag"), (S.sattr("vary"), ps.get("vary_name"), "name")}
         got = set()
         for ev, m in sx.calls_some(("call", ("glob", "_set_state"), S.V("a"), S.V("k"))):
-            a, k = m["a"], dict(m["k"])
-            if len(a) == 3 and a[1] == ("const", state):
-                attr = k.get("attr")
-                got.add((a[0], a[2], attr[1].strip("'\"") if attr else None))
+            full = S.call_args(ev.term, ("lst", "state", "entries", "attr")) or S.call_args(ev.term, ("lst", "state", "entries"))
+            if full is not None and full[1] == ("const", state):
+                attr = full[3] if len(full) == 4 else None
+                got.add((full[0], full[2], attr[1].strip("'\"") if attr else None))
         got_n = {(x, y, (z if z != "tag" or x != S.sattr("targets") else None)) for x, y, z in got}
         ok = {(x, y, z if not (x == S.sattr("vary") and z is None) else "tag") for x, y, z in got_n} == want
         col.add(rule, f"Optimize.{meth}#sets-state-{state}", ok, sx.loc(sx.fn),
